@@ -578,7 +578,30 @@ func ruleC09UP4(w *World, r *Report) {
 			a := c.Common().Args
 			cell := symOf(a[2]).String()
 			cfg := symOf(a[3]).String()
-			okDir := (strings.Contains(cell, "uplinkCellID") && strings.Contains(cfg, "qer.ulMbr")) || (strings.Contains(cell, "downlinkCellID") && strings.Contains(cfg, "qer.dlMbr"))
+			// which cell of the meter the argument is: the field it is read from, or — for a local handed on
+			// directly — the one field it is stored into. (The provenance text names the allocation, not the field.)
+			field := ""
+			if ld, ok := a[2].(*ssa.UnOp); ok && ld.Op == token.MUL {
+				if fa, ok := ld.X.(*ssa.FieldAddr); ok && fieldVar(fa) != nil {
+					field = fieldVar(fa).Name()
+				}
+			} else if refs := a[2].Referrers(); refs != nil {
+				for _, ref := range *refs {
+					if st, ok := ref.(*ssa.Store); ok && st.Val == a[2] {
+						if fa, ok := st.Addr.(*ssa.FieldAddr); ok && fieldVar(fa) != nil {
+							if field != "" && field != fieldVar(fa).Name() {
+								field = "(several)"
+								break
+							}
+							field = fieldVar(fa).Name()
+						}
+					}
+				}
+			}
+			if field == "" {
+				field = cell
+			}
+			okDir := (strings.Contains(field, "uplinkCellID") && strings.Contains(cfg, "qer.ulMbr")) || (strings.Contains(field, "downlinkCellID") && strings.Contains(cfg, "qer.dlMbr"))
 			r.check(okDir, "R09.4", w.FuncName(cf), "application meter cell and rates of the same direction", w.Pos(c.Pos()), cell+" ← "+cfg, "cell "+cell+" is configured with "+cfg)
 		}
 	}
@@ -782,6 +805,59 @@ func isRangeIndexOf(v ssa.Value) bool {
 		}
 	}
 	return inits == 1 && backs >= 1
+}
+
+// isCountingIndexOf: v = φ(0, v+1), the index of `for i := 0; …; i++` (every way back into the loop adds
+// exactly one).
+func isCountingIndexOf(v ssa.Value) bool {
+	phi, ok := v.(*ssa.Phi)
+	if !ok || len(phi.Edges) < 2 {
+		return false
+	}
+	inits, backs := 0, 0
+	for _, e := range phi.Edges {
+		if k, isK := constInt(e); isK && k == 0 {
+			inits++
+			continue
+		}
+		bo, ok := e.(*ssa.BinOp)
+		if !ok || bo.Op != token.ADD || bo.X != ssa.Value(phi) {
+			return false
+		}
+		if k, isK := constInt(bo.Y); !isK || k != 1 {
+			return false
+		}
+		backs++
+	}
+	return inits == 1 && backs >= 1
+}
+
+// loopOverAllOf: cond is the header test of a loop that visits every index of a list once, in order —
+// `for i := range x` or `for i := 0; i < len(x); i++` — and returns the list and the index.
+func loopOverAllOf(cond ssa.Value) (list, index ssa.Value) {
+	bo, ok := cond.(*ssa.BinOp)
+	if !ok {
+		return nil, nil
+	}
+	idx, ln := bo.X, bo.Y
+	switch bo.Op {
+	case token.LSS, token.NEQ:
+	case token.GTR:
+		idx, ln = ln, idx
+	default:
+		return nil, nil
+	}
+	if !isRangeIndexOf(idx) && !isCountingIndexOf(idx) {
+		return nil, nil
+	}
+	if bo.Op == token.NEQ && !isCountingIndexOf(idx) {
+		return nil, nil
+	}
+	lc, ok := ln.(*ssa.Call)
+	if !ok || calleeName(lc) != "builtin.len" {
+		return nil, nil
+	}
+	return lc.Call.Args[0], idx
 }
 
 // ruleC09MeterCells (R09.6): meter cell 0 means "no meter" throughout UP4 (PDRs without a QER point at it,
